@@ -155,6 +155,20 @@ def unary(bs, acc, d, full, lsb0=False):
             for op, left, th, src in (('lshift', True, lambda: s << n, f"s << {n}"), ('rshift', False, lambda: s >> n, f"s >> {n}")):
                 exp = wrap(cls, shift_model(d, n, left))
                 got = obs(th, cb)
+                if cls in MUTABLE and exp[0] == 'ok' and n in (0, 1, L):
+                    # a non-in-place operator on a mutable operand hands back a NEW object: changing the result must not change the operand
+                    try:
+                        r = th()
+                        same_obj = r is s
+                        r.append('0b1')
+                        r.invert()
+                    except Exception:  # noqa: BLE001 - the value comparison below reports it
+                        same_obj = False
+                    if same_obj or s.bin != d:
+                        acc.violation(op, 'frame', dict(cls=cls, data=d, n=n, group='result-aliases-operand'),
+                                      '\n'.join(["import bitstring", f"bitstring.options.lsb0 = {lsb0}", f"s = {mk(cls, d, pos)}", f"r = {src}", "assert r is not s", "r.append('0b1'); r.invert()", f"assert s.bin == {d!r}, s.bin"]),
+                                      d, s.bin)
+                        s = build(bs, cls, d, pos)
                 ok_ = int(exp[0] == 'ok')
                 acc.step(op, 1, nontrivial=ok_, ok=ok_, rej=1 - ok_)
                 if not exc_match(exp, got):
